@@ -261,7 +261,7 @@ func c11Transfer(run *Run, mu *mosnUnderTest, xl v2.Listener) int {
 		run.Fail("upgrade:connections-not-handed-over", fmt.Sprintf("only %d of %d xprotocol connections reached the new handler through the transfer socket", transferred, want),
 			map[string]interface{}{"part": "transfer", "handed_over": transferred, "expected": want})
 	}
-	sh := run.NewShard("From MV Require Import Gen.TransferTokens.\n"+c11Header, "xfer_case", "xfer_mismatches transfer_buffer_has_room")
+	sh := run.NewShard(inlineGen(genTransferTokens)+c11Header, "xfer_case", "xfer_mismatches transfer_buffer_has_room")
 	for _, xc := range conns {
 		rep := map[string]interface{}{"part": "transfer", "connection": xc}
 		run.Count(fmt.Sprintf("xfer|%s|%d", xc.Kind, xc.Offset), true, "upgrade-"+xc.Kind)
@@ -439,7 +439,7 @@ func (hw *halfWritten) report(run *Run) {
 		what := fmt.Sprintf("a connection was handed over while a %d-byte response was half written to a slow reader; the client stream (%d bytes) differs from response 1 followed by response 2 (%d bytes) at offset %d; response 2 starts at offset %d of the client stream (response 1 is %d bytes long)", hw.Size, hw.Got, len(hw.ref), hw.FirstBad, hw.Resp2At, hw.RefLen1)
 		run.Fail("transfer:handed-over-while-response-half-written:stream-corrupted", what, rep)
 	}
-	sh := run.NewShard("From MV Require Import Gen.TransferTokens.\nFrom Coq Require Import ZArith.\n"+c11Header, "hw_case", "hw_mismatches transfer_takes_write_lock_first")
+	sh := run.NewShard(inlineGen(genTransferTokens)+"From Coq Require Import ZArith.\n"+c11Header, "hw_case", "hw_mismatches transfer_takes_write_lock_first")
 	sh.Add(fmt.Sprintf("(%s, %s, %s, %s)", CoqN(uint64(hw.RefLen1)), CoqN(uint64(hw.RefLen2)), CoqBool(hw.Intact), CoqZ(int64(hw.Resp2At))), rep)
 	sh.Close()
 	run.Sample(rep)
